@@ -16,6 +16,12 @@ SYNTHETIC CUSTOM BACKENDS (harness/impl/c19_synth.py): per seed, backends with g
 raw texts through each single source and through several at once; their rows are instances of the model's schema
 `Options.customBackendRow` (driver: `custom`), and a metamorphic oracle compares what the backend constructor receives
 across sources.
+CLASS HIERARCHIES OF BACKENDS (harness/impl/c19_hier.py): per seed, families of custom backends that derive from another
+concrete backend (Local / S3Compatible / B2 / S3 / another generated one; two to four levels; with and without the
+`short_name=` class keyword, with a plain `short_name` class attribute; adding, overriding or merely inheriting keyword-only
+options).  For the class the user names every option is set through subsets of its sources under the class's OWN documented
+names while `<ANCESTOR SHORT NAME>_<OPTION>` variables hold decoy texts; their rows are built by the model from the class
+declaration chain (`Options.classBackendRow`, driver: `class_row`) and compared with the live parser and the documented names.
 """
 import concurrent.futures
 import json
@@ -28,6 +34,7 @@ from pathlib import Path
 from ..common import REPO, VERIF, WORK, PYMOD, rng_for, digest
 from ..impl.c19_child import tv
 from ..impl import c19_synth as synth
+from ..impl import c19_hier as hier
 from ..ref import options_ref as ref
 
 CHILD = VERIF / 'harness' / 'impl' / 'c19_child.py'
@@ -111,7 +118,7 @@ class Tables:
         if 'error' in live_backend:
             return [{'backend': spec['module'], 'not loadable': live_backend['error']}]
         self.synth[spec['module']] = dict(spec, root=str(root))
-        ref.register_backend(spec['module'], spec['short'])
+        ref.register_backend(spec['module'], spec['short'], spec.get('alt_own', ()))
         fields = {f['name']: f for f in live_backend.get('fields', [])}
         if sorted(fields) != sorted(o['name'] for o in spec['options']):
             problems.append({'backend': spec['module'], 'options': sorted(fields), 'declared': sorted(o['name'] for o in spec['options'])})
@@ -125,13 +132,35 @@ class Tables:
             row = drv.ask({'op': 'options.custom_row', 'custom': custom})
             if 'error' in row:
                 raise RuntimeError('driver: ' + row['error'])
+            own_env = [names['env']] + ref.alt_env_names(spec['module'], o['name'])
+            if spec.get('chain'):
+                # a class of a hierarchy: the MODEL derives the names from the class declaration chain
+                cr = drv.ask({'op': 'options.class_row', 'chain': spec['chain'], 'owner': spec['module'], 'dest': o['name'],
+                              'builtinKind': custom['builtinKind']})
+                if 'error' in cr:
+                    raise RuntimeError('driver: ' + cr['error'])
+                mrow = cr.get('row')
+                if mrow is None:
+                    problems.append({'row': [spec['module'], o['name']], 'model': f"short-name rule {cr.get('rule')}: outside the model"})
+                else:
+                    menv = mrow['env']['var']
+                    if dict(mrow, env=None) != dict(row, env=None) or menv not in own_env:
+                        problems.append({'row': [spec['module'], o['name']], 'names by the model (class declaration chain)':
+                                         {'flag': mrow['cli'][0]['flag'], 'env': menv, 'key': mrow['file'][0]['key']},
+                                         'rule': cr.get('rule'), 'documented': names, 'chain': spec['chain']})
+                    if f['env'] != menv:
+                        problems.append({'row': [spec['module'], o['name']], 'environment variable (live parser)': f['env'],
+                                         'environment variable (model)': menv, 'rule': cr.get('rule'), 'chain': spec['chain']})
+                    if menv in own_env:
+                        row = mrow
+                        custom = dict(custom, env=menv)
             row['custom'] = custom
             row['synth_option'] = {k: o[k] for k in ('name', 'ann', 'ann_src', 'default', 'default_src')}
             row['synth_option'].update(module_future=spec['future'], decl=spec['decl'])
             acts = f['actions']
             live_flags = [a['flags'] for a in acts]
             live_ty = [a['type'] for a in acts]
-            if live_flags != [[names['flag']]] or f['env'] != names['env'] or f['file_key'] != names['key']:
+            if live_flags != [[names['flag']]] or f['env'] not in own_env or f['file_key'] != names['key']:
                 problems.append({'row': [spec['module'], o['name']], 'live': {'flags': live_flags, 'env': f['env'], 'key': f['file_key']},
                                  'documented': names})
             if [LIVE_TY_OF_MODEL.get(v['ty']) for v in row['cli']] != live_ty:
@@ -553,6 +582,8 @@ def gen_cases(tables, r, tier):
     # ---- S. synthetic custom backends (generated signatures): literal-looking texts through each single source, and through
     #         several sources at once; judged per case like every other backend option AND across cases (synth.judge_groups)
     for module, spec in sorted(getattr(tables, 'synth', {}).items()):
+        if spec.get('chain'):
+            continue      # a class of a generated hierarchy: family H
         for item in synth.plan(r, spec, tier):
             row = tables.by_key.get((module, item['dest']))
             if row is None:
@@ -563,6 +594,21 @@ def gen_cases(tables, r, tier):
             c['synth_texts'] = dict(item['texts'])
             c['synth_option'] = row['synth_option']
             c['_fill'] = ('texts', row, dict(item['texts']))
+            cases.append(c)
+    # ---- H. class hierarchies of backends: every generated class is a backend the user can name; per option (inherited,
+    #         overridden, own) subsets of its sources under the class's own names, decoys under the ancestors' names
+    for module, spec in sorted(getattr(tables, 'synth', {}).items()):
+        if not spec.get('chain'):
+            continue
+        for item in hier.plan(r, spec, tier):
+            row = tables.by_key.get((module, item['dest']))
+            if row is None:
+                continue
+            c = new_case('hier-precedence', r.choice(picked), module, r.choice(['explicit', 'explicit', 'default-location']))
+            c['focus'] = [module, item['dest']]
+            c['combo'] = dict(item['combo'])
+            c['hier'] = dict(spec['hier'], origin=item['origin'])
+            c['_fill'] = ('combo', row, dict(item['combo']), {s: item['flavour'] for s in item['combo']})
             cases.append(c)
     return cases
 
@@ -629,7 +675,10 @@ def realise(case, tables, r, ctx):
     if case['backend'] in getattr(tables, 'synth', {}):
         sp = tables.synth[case['backend']]
         case['synth'] = {k: sp[k] for k in ('module', 'cls', 'short', 'decl', 'future', 'options', 'source')}
+        case['synth'].update({k: sp[k] for k in ('chain', 'ancestors', 'ancestor_relation', 'alt_own', 'support', 'hier') if k in sp})
         case['extra_paths'] = [sp['root']]
+        if sp.get('ancestors'):
+            case['env_extra'] = hier.decoys(sp, [o['name'] for o in sp['options']])
     ensure_backend(case, tables, r, ctx)
     ensure_positionals(case, tables, r)
     # how the configuration file reaches the program = command-line sources of the options `configuration_file` / `profile`
@@ -685,6 +734,8 @@ def materialise(case, tables, cdir):
                 cli_words += [flag]
         for vi, raw in srcs.get('env', []):
             env[ref.env_name(row['owner'], row['dest']) or row['env']['var']] = raw
+            for alt in ref.alt_env_names(row['owner'], row['dest']):     # a further name that is the class's own
+                env[alt] = raw
         for vi, raw in srcs.get('prof', []):
             prof[row['file'][vi]['key']] = raw
         for vi, raw in srcs.get('dflt', []):
@@ -712,6 +763,8 @@ def materialise(case, tables, cdir):
         (xdg / 'replicat' / 'replicat.toml').write_text(text, encoding='utf-8')
     argv += positional + cli_words
     envx = {'HOME': str(cdir / 'home'), 'XDG_CONFIG_HOME': str(xdg), 'XDG_CACHE_HOME': str(cdir.parent / 'xdgcache')}
+    for k, v in case.get('env_extra', {}).items():      # decoys: variables of OTHER backends (ancestors of the class named)
+        env.setdefault(k, v)
     envx.update(env)
     case['argv'] = argv
     case['env'] = env
@@ -925,6 +978,13 @@ def classify(case, tables, row, exp, obs_desc, res):
     if row['scope'] == 2:
         if w in ('prof', 'dflt') and not isinstance(srcs[w][-1][1], str) and res.get('exc') == 'AttributeError':
             return 'options:D14:backend-nonstring-toml-value'
+        if case.get('hier') and obs_desc != 'twice':
+            got = (res.get('handler') or {}).get('args', {}).get(dest)
+            for name, text in sorted(case.get('env_extra', {}).items()):
+                if name.endswith('_' + dest.upper()) and got == tv(text):
+                    return f"options:backend:env-name:inherited-from-{text[len('decoy-'):]}:{w}-expected"
+            if w == 'env':
+                return 'options:backend:env-name:own-variable-not-read'
         return f"options:D15:backend-coerced-twice:{w}" if obs_desc == 'twice' else f'options:backend:{w}-expected'
     if len(row['file']) >= 2 and srcs.get('prof') and srcs.get('dflt') and srcs['prof'][-1][0] != srcs['dflt'][-1][0]:
         kp, kd = row['file'][srcs['prof'][-1][0]]['key'], row['file'][srcs['dflt'][-1][0]]['key']
@@ -1032,7 +1092,7 @@ def judge(out, case, tables, real, drv_replies, rows, res, cdir, pair_rejected=F
         blame = focus if focus in cand or not cand else cand[0]
         sig = classify(case, tables, blame, exp_all[(blame['owner'], blame['dest'])], 'failed', res)
         out.violation(sig, f"all supplied values are acceptable, expected {blame['dest']} = {exp_all[(blame['owner'], blame['dest'])][1]}, "
-                           f"but the run ended with {res.get('exc') or res.get('exit_code')}: {res.get('msg', '')[:120]}", rp)
+                           f"but the run ended with {res.get('exc') or res.get('exit_code')}: {res.get('msg', '')[:120]}" + hier_note(case), rp)
         return agreed
     args = res['handler']['args']
     for row in rows:
@@ -1046,7 +1106,7 @@ def judge(out, case, tables, real, drv_replies, rows, res, cdir, pair_rejected=F
             if st == 'ok' and tv(twice) == got:
                 desc = 'twice'
         sig = classify(case, tables, row, exp, desc, res)
-        out.violation(sig, f"{row['dest']}: expected {exp} (from {winner(case, row)}), the handler received {got}",
+        out.violation(sig, f"{row['dest']}: expected {exp} (from {winner(case, row)}), the handler received {got}" + hier_note(case),
                       dict(rp, row=[row['owner'], row['dest']], expected=exp, got=got))
     # the backend constructor receives exactly the options that have a value, with those values
     kwargs = res['handler']['ctor'].get('kwargs')
@@ -1076,6 +1136,13 @@ def judge(out, case, tables, real, drv_replies, rows, res, cdir, pair_rejected=F
             out.violation('options:precedence:log-level', f"root logger level {res['handler'].get('root_level')}, expected {want} "
                                                           f"(-v count {v}, log-level option {exp_all[('', 'log_level')][1]})", rp)
     return agreed
+
+
+def hier_note(case):
+    """for a class of a generated hierarchy: which class, derived from what, read from which variables"""
+    if not case.get('hier') or not case.get('synth', {}).get('chain'):
+        return ''
+    return f" — {hier.describe(case['synth'])}; environment of the run: {case.get('env')}"
 
 
 def public(case):
@@ -1250,6 +1317,19 @@ def run_cases(out, drv, tables, real, cases, base, label, collect=None):
                 out.count('synth:text:' + synth.TEXT_CLASS.get(t, 'other'))
             if so['ann'] != 'none' and 'cli' in c['synth_texts'] and synth.TEXT_CLASS.get(c['synth_texts']['cli']) not in ('plain', 'unicode'):
                 out.count('synth:annotated-option-literal-text-on-command-line')
+        if c['kind'].startswith('hier-'):
+            h = c['hier']
+            out.count(f"hier:levels-below-Backend:{h['levels']}")
+            out.count('hier:base:' + h['base'])
+            out.count('hier:declaration:' + h['decl'])
+            out.count('hier:parent-declaration:' + h['parent_decl'])
+            out.count('hier:constructor:' + {'extend': 'adds-options', 'override': 'overrides-inherited-default', 'inherit': 'inherited-as-is'}[h['init']])
+            out.count('hier:parent-imported-as:' + h['import'])
+            out.count('hier:option:' + h['origin'])
+            out.count('hier:environment:' + ('own-variable-set+ancestor-decoys' if 'env' in c['combo'] else 'ancestor-decoys-only')
+                      if c.get('env_extra') else 'hier:environment:no-ancestor-with-another-name')
+            if h['keywordless_under_other_name']:
+                out.count('hier:class-without-keyword-under-differently-named-parent')
         if reps is None:
             continue
         pair_rejected = False
@@ -1268,7 +1348,10 @@ def run(out, drv, info):
                 'annotated, defaulted and required options) × where the configuration file is (--config, default location, '
                 '--ignore-config) × for the option in focus every combination "each of its sources unset or set through one of its '
                 'flags / file keys" (+ value flavours, single-source texts, exclusive pairs, random multi-option backgrounds; for generated '
-                'backends: 4 literal-looking texts per option × each single source, and multi-source subsets with distinct texts); each case is '
+                'backends: 4 literal-looking texts per option × each single source, and multi-source subsets with distinct texts; for generated '
+                'class hierarchies of backends — a class deriving from Local / S3Compatible / B2 / S3 / another generated backend, 2–4 levels, '
+                'name declared by keyword / plain attribute / not at all, options added / overridden / inherited — per option subsets of its '
+                'sources under the class\'s own names with decoy variables under every ancestor\'s name); each case is '
                 'one fresh process running the real main(); non-trivial = at least two sources set in the case; distinct = hash of '
                 '(argv, env, config text)')
     out.assumptions = [
@@ -1276,6 +1359,8 @@ def run(out, drv, info):
         'leaf functions (guess_type, parse_repository, Path, …) are parameters of the theorems; the driver is fed with the results of the real ones',
         'SemOK: validators of main options never return str — checked here on every raw value used',
         'an unacceptable value in a source that does NOT win may also end the run (eager validation) — outside the statement',
+        'class hierarchies of backends: single inheritance chains, ASCII class / option names (str.upper is modelled on ASCII); a plain '
+        '`short_name` class attribute is the class\'s own but undocumented name — the harness sets the variable under both of its own names',
     ]
     if drv is None:
         return
@@ -1289,7 +1374,8 @@ def run(out, drv, info):
         if problems:
             out.disagreement('the option table compiled into the model differs from the live parsers', {'problems': problems[:5]})
         real = Real()
-        setup_synthetic(out, drv, tables, base, rng_for(out.seed, 'C19-synth'), 4 if out.tier == 'quick' else 24)
+        families = hier.gen_backends(rng_for(out.seed, 'C19-hier'), 4 if out.tier == 'quick' else 14, intro, out.tier != 'quick')
+        setup_synthetic(out, drv, tables, base, rng_for(out.seed, 'C19-synth'), 4 if out.tier == 'quick' else 24, more=families)
         r = rng_for(out.seed, 'C19')
         cases = gen_cases(tables, r, out.tier)
         out.extra['option_rows'] = len(tables.rows)
@@ -1302,18 +1388,18 @@ def run(out, drv, info):
         semok_check(out, tables, real)
         # report the sharpest findings first (the runner prints the first five distinct signatures)
         prio = ['options:scenario', 'options:precedence', 'options:exclusive', 'options:file-exclusive', 'options:unacceptable',
-                'options:backend:coercion-depends-on-source', 'options:backend:custom-precedence', 'options:backend', 'options:unexpected', 'options:compatible', 'options:D14', 'options:D15:backend-coerced-twice:env',
+                'options:backend:env-name', 'options:backend:coercion-depends-on-source', 'options:backend:custom-precedence', 'options:backend', 'options:unexpected', 'options:compatible', 'options:D14', 'options:D15:backend-coerced-twice:env',
                 'options:profile-vs-default:cache-directory', 'options:D15', 'options:profile-vs-default']
         out.violations.sort(key=lambda v: next((i for i, p in enumerate(prio) if v['sig'].startswith(p)), len(prio)))
     finally:
         shutil.rmtree(pid_dir, ignore_errors=True)
 
 
-def setup_synthetic(out, drv, tables, base, r, n, specs=None):
+def setup_synthetic(out, drv, tables, base, r, n, specs=None, more=()):
     """generate (or, for a replay, re-create) the synthetic custom backends, put them on disk the way the README describes a
     custom backend, look at the parsers the real code builds for them and register their rows (model: schema instances)"""
     root = base / 'custom-backends'
-    specs = specs if specs is not None else synth.gen_backends(r, n)
+    specs = specs if specs is not None else synth.gen_backends(r, n) + list(more)
     for sp in specs:
         synth.write_backend(root, sp)
     live = introspect(extra_paths=[root], extra_backends=[sp['module'] for sp in specs])
@@ -1325,7 +1411,13 @@ def setup_synthetic(out, drv, tables, base, r, n, specs=None):
     out.extra['synthetic_backends'] = [{'module': sp['module'], 'short_name': sp['short'], 'declaration': sp['decl'],
                                         'future_import': sp['future'],
                                         'options': [synth.describe(o) for o in sp['options']]}
-                                       for sp in specs][:6]
+                                       for sp in specs if not sp.get('chain')][:6]
+    if any(sp.get('chain') for sp in specs):
+        out.extra['backend_class_hierarchies'] = [
+            {'module': sp['module'], 'chain': ' < '.join(c['name'] + (f"[short_name={c['kw']}]" if c['kw'] else '') + (f"[attr {c['attr']}]" if c['attr'] else '')
+                                                        for c in sp['chain']) + ' < Backend',
+             'documented_prefix': sp['short'].upper(), 'decoy_prefixes': sp['ancestors'], 'constructor': sp['hier']['init'],
+             'options': [synth.describe(o) + f" ({o.get('origin')})" for o in sp['options']]} for sp in specs if sp.get('chain')][:8]
     return specs
 
 
